@@ -2494,6 +2494,11 @@ class Engine:
             out = SetV(lambda v: S_(Z(v[0]), Z(v[1])), 2)
             out.fun = S_
             return out
+        if r == "int+IntList":  # (an integer, a list of integers)
+            n = fresh("res_n")
+            st.assume(n >= 0)
+            F = fresh_fun("res", z3.IntSort(), z3.IntSort())
+            return TupV([IntV(fresh("res")), SeqV(n, lambda i: IntV(F(i)), "list")])
         if r.startswith("bool*"):
             return TupV([BoolV(fresh("res", "bool")) for _ in range(int(r[5:]))])
         if r == "TupleList":
